@@ -342,20 +342,21 @@ def walk_grid(r, wmax=14, hmax=8):
 
 
 def hatch_grid(r):
-    """a hatched triangle: bars hanging from the top row at every other column, each two rows shorter than its left
-    neighbour, a '/' run along their lower ends, and a long bar at the left edge that goes on below the hatching: a
-    grouping that needs one pass per bar"""
+    """a hatched triangle: bars hanging from the top row at the columns 0, 2, 4, ..., each two rows shorter than its left
+    neighbour; a '/' run from the top right down to a '+' beside the lower end of the first bar, which goes on for a few
+    more rows: grouping its cells takes one merge pass per bar"""
     nb = r.choice([r.randint(3, 7), r.randint(8, 14), r.randint(15, 30)])
-    L = 2 * nb + 3
-    H, W = L + r.randint(2, 5), 2 * nb + 4
-    g = [[" "] * W for _ in range(H)]
-    for y in range(H):
-        g[y][0] = "|"
+    tail = r.randint(1, 4)
+    width = 2 * nb
+    rows = width + tail
+    g = [[" "] * (width + 1) for _ in range(rows)]
     for i in range(nb):
-        x = 2 * i + 2
-        for y in range(0, L - x):
+        x = 2 * i
+        for y in range(width - x):
             g[y][x] = "|"
-    for x in range(1, 2 * nb + 3):
-        if 0 <= L - x < H:
-            g[L - x][x] = "/"
+    for y in range(width):
+        g[y][width - y] = "/"
+    g[width - 1][1] = "+"
+    for y in range(width, rows):
+        g[y][0] = "|"
     return "\n".join("".join(row).rstrip() for row in g)
